@@ -147,3 +147,56 @@ def rules(t):
             if s.fn.path.rsplit("::", 1)[-1] not in fnames: r.bad(f"{s.fn.path}", s, f"{short(s.fn.path)} writes memory_usage_bytes")
     out.append(r)
     return out
+
+
+def err_exits(f):
+    """program points that build the function's Err result (explicit `Err(..)` into _0 or `?` propagation): a channel function returning Err
+    makes the caller drop the whole connection, so accounting on those paths is exempt"""
+    pts = set()
+    for b in f.blocks:
+        if b["i"] not in f.reach: continue
+        for k, s in enumerate(b["stmts"]):
+            if s["k"] == "assign" and s["place"]["local"] == 0 and not s["place"]["proj"] and s["rv"]["k"] == "aggr" and s["rv"].get("vname") == "Err": pts.add((b["i"], k))
+        tm = b["term"]
+        if tm["k"] == "call" and "from_residual" in callee_name(tm) and tm["dest"]["local"] == 0: pts.add((b["i"], len(b["stmts"])))
+    return pts
+
+
+def pair_paths(t):
+    """C09.f: PAIR on every path. (1) after an element left an accounted container, memory_usage_bytes is decreased on every path before the
+    function returns or handles the next element; (2) after memory_usage_bytes was increased, the accounted container grows on every Ok path."""
+    r = RuleResult("C09.f", "PAIR on every path: each removal from an accounted container is followed (or preceded in the same iteration) by the release on all paths; each reservation is followed by the growth on all Ok paths", floor=17)
+    for adt, containers in PAIRS:
+        stores = list(counter_stores(t, adt))
+        tag = adt.split("::")[-1]
+        for cont in containers:
+            for g in [g for g in t.effects(cont, SHRINKM) if tag in g.fn.path]:
+                f = g.fn
+                subs = [s for s, k, a in stores if s.fn is f and k == "sub"]
+                r.site(g, f"shrink {cont}")
+                lp = innermost_loop(f, g.bb)
+                before = [s for s in subs if f.dominates(s.bb, g.bb) and (s.bb != g.bb or s.idx < g.idx) and (lp is None or s.bb in lp[1])]
+                if before: continue
+                e = t.result_edges(f, g)
+                start = (e[0][0], len(f.blocks[e[0][0]]["stmts"])) if e else pos(g)
+                avoid = {(e[1][0], e[1][1])} if e and e[0][1] != e[1][1] else set()
+                ok, w = must_pass(f, start, {pos(s) for s in subs} | err_exits(f), stops={pos(g)}, avoid_edges=avoid)
+                if not ok: r.bad(f"{f.path}|shrink-path|{cont}", g, f"an element removed from {cont} is not released from memory_usage_bytes on every path (a path reaches {'the next iteration' if w == g.bb else 'the return'} without `memory_usage_bytes -= size`): accounted memory leaks")
+        # reservations
+        for s, k, a in stores:
+            if k != "add": continue
+            f = s.fn
+            grows = []
+            for cont in containers:
+                grows += [g for g in t.effects(cont, GROWM, f)] + list(vacant_insert_sites(t, f, cont))
+            r.site(s, "reserve")
+            if any(f.dominates(g.bb, s.bb) and (g.bb != s.bb or g.idx < s.idx) for g in grows): continue
+            ok, w = must_pass(f, pos(s), {pos(g) for g in grows} | err_exits(f))
+            if not ok: r.bad(f"{f.path}|reserve-path", s, "memory_usage_bytes is increased but on some Ok path nothing is stored in the accounted container: the reservation is never released")
+    return r
+
+_rules_c09 = rules
+def rules(t):
+    out = _rules_c09(t)
+    out.append(pair_paths(t))
+    return out
